@@ -341,7 +341,7 @@ def run(ck):
         for p in paths[:1]:
             kc = [c for c in p.calls if c[0].endswith("_kron_mult")]
             cj = [c for c in p.calls if c[0].endswith("cplx.conjugate")]
-            ok = len(kc) == 2 and len(cj) == 1 and kc[0][5].get("matrices") is kc[1][5].get("matrices") and cj[0][7].get("x") == kc[0][6] and kc[1][7].get("x") == cj[0][6]
+            ok = len(kc) == 2 and len(cj) == 1 and argp(kc[0][5], 0) is argp(kc[1][5], 0) and cj[0][7].get("x") == kc[0][6] and argp(kc[1][7], 1) == cj[0][6]
             ck.check(bool(ok), "C04.R4", "rotate_rho = U (U rho)^dagger", rr.site(), "rotate_rho is not sweep -> conjugate transpose -> sweep with the same unitaries")
     ck.require_min("C04.R1", 12)
     ck.require_min("C04.R2", 10)
